@@ -420,10 +420,12 @@ package netpoll
 
 //@ func (*UnsafeLinkBuffer).Len
 //@   property C01
+//@   inline
 //@   ensures result == b.length
 //@
 //@ func (*UnsafeLinkBuffer).IsEmpty
 //@   property C01
+//@   inline
 //@   ensures ok == (b.length == 0)
 
 //@ func NewLinkBuffer
